@@ -105,6 +105,16 @@ CHECKS = [
               'named by the property; molecules where the aromaticity models or RDKit sanitisation rewrite the structure are '
               'skipped and counted.',
          technique='round-trip and differential property-based testing against RDKit'),
+    dict(id='C12',
+         text='(1) exhaustive permutation sweep on every labelled centre of generated molecules: all 24/6 neighbour orderings (explicit '
+              'and implicit hydrogen), all substituent pairs of double bonds and allenes, checked against permutation parity; setters '
+              'with every ordering; (2) exhaustive enumeration of SMILES spellings of one centre / one double bond (neighbour order, '
+              'centre position, H in/outside the bracket, ring-closure neighbours, second component, / \\ placements, dienes, '
+              'cumulenes, oximes) judged by RDKit and by mutual equality; (3) single-label inversion never gives an equal molecule, '
+              'RDKit agrees; (4) marks on non-stereogenic centres are dropped.',
+         note='Trusted: parity from permutation cycles, RDKit as the independent toolkit for the absolute convention (carbon centres, '
+              'simple double bonds); pseudo-asymmetric and meso situations are excluded from clause (3) by the symmetry oracle.',
+         technique='exhaustive permutation/spelling enumeration + property-based testing with parity and RDKit oracles'),
     dict(id='C13',
          text='Model-based history search: Kekule seed molecules followed by 3-14 drawn operations (add/delete atom and bond, '
               'committed and rolled-back transactions, remap, copy, substructure, union, in-place union, clean_stereo, label, '
